@@ -657,6 +657,29 @@ def state_flag(before, after):
     return "T"
 
 
+KW_NAMES = {   # parameter names of the unchanged signatures, per family (used when a wrapper hides them)
+    "st": {"fit": ["Z", "X"], "transform": ["Z", "X"], "inverse_transform": ["Z", "X"]},
+    "pt": {"fit": ["X", "y"], "transform": ["X", "y"], "inverse_transform": ["X", "y"]},
+    "clf": {"fit": ["X", "y"], "predict": ["X"], "predict_proba": ["X"]},
+    "reg": {"fit": ["X", "y"], "predict": ["X"]},
+    "fc": {"fit": ["y", "X", "fh"], "predict": ["fh"]},
+}
+
+
+def as_keywords(fn, fam, method, args):
+    """the positional arguments of a call as KEYWORD arguments (names from the method's signature)"""
+    import inspect as _insp
+    names = []
+    try:
+        names = [p.name for p in _insp.signature(fn).parameters.values()
+                 if p.kind in (p.POSITIONAL_OR_KEYWORD, p.KEYWORD_ONLY)]
+    except (TypeError, ValueError):
+        pass
+    if len(names) < len(args):
+        names = KW_NAMES[fam][method]
+    return dict(zip(names, args))
+
+
 def _call(fn, *a, **k):
     import joblib
     with warnings.catch_warnings():
@@ -718,7 +741,10 @@ def run_seq(c):
         a = (ofit_args if other else fit_args)()
         before = snap_args(a)
         try:
-            _call(est.fit, *a, **(ofit_kw if other else fit_kw))
+            if c.get("fitkw"):
+                _call(est.fit, **dict(as_keywords(est.fit, e["fam"], "fit", a), **(ofit_kw if other else fit_kw)))
+            else:
+                _call(est.fit, *a, **(ofit_kw if other else fit_kw))
         except Exception as ex:
             insts[inst] = _err(ex)
             obs["errors"].append("fit[%s]: %s: %s" % (inst, type(ex).__name__, str(ex)[:160]))
@@ -738,7 +764,9 @@ def run_seq(c):
         return obs
     firsts = {}          # (method, argid) -> (result object | error token, digest, chg)
     pending = []         # pairs only ever called on a copy that could not be built
-    for inst, method, argid in c["calls"]:
+    for call in c["calls"]:
+        inst, method, argid = call[:3]
+        by_keyword = len(call) > 3 and call[3] == "k"       # the call is made with KEYWORD arguments (Z= / X= / fh=)
         est = fitted(inst)
         if isinstance(est, str) and est == "SKIP":
             continue
@@ -769,7 +797,11 @@ def run_seq(c):
             if method == "inspect":
                 res = inspect_results(est)
             elif isfc:
-                res = _call(getattr(est, method)) if default_call else _call(getattr(est, method), a[0])
+                fn = getattr(est, method)
+                res = _call(fn) if default_call else _call(fn, **as_keywords(fn, "fc", method, a[:1])) if by_keyword else _call(fn, a[0])
+            elif by_keyword:
+                fn = getattr(est, method)
+                res = _call(fn, **as_keywords(fn, e["fam"], method, a))
             else:
                 res = _call(getattr(est, method), *a)
             err = None
@@ -1153,6 +1185,8 @@ def features(c, out):
         f += ["est=" + c["est"], "fam=" + e["fam"], "cont=" + c["cont"]]
         if has_n_jobs(c["est"]):
             f.append("n_jobs-clause=" + c["est"])
+        f.append("fit-by-keyword=%s" % bool(c.get("fitkw")))
+        f.append("calls-by-keyword=%d" % sum(1 for x in c["calls"] if len(x) > 3))
         if "rsform" in c:
             f.append("random_state=" + c["rsform"])
             if e.get("no_rsobj"):
@@ -1267,8 +1301,19 @@ def _seq_case(rng, key, cont, quick, variant=0, rsform=None, compact=False):
             calls.insert(rng.randrange(2, len(calls) + 1), x)
         # ... and once with the fit horizon still in force on every copy (before predict was given any horizon)
         calls[1:1] = [["pk", m, "N"], ["dc", m, "N"]]
+    # every call both positionally and by KEYWORD (Z= / X= / y= / fh=): each (method, argument) of the original at least once
+    # by keyword, the other calls at random; fit by keyword in every other case
+    kw_done = set()
+    for x in calls:
+        if x[1] == "inspect" or x[2].endswith("N"):
+            continue
+        if (x[0] == "o" and (x[1], x[2]) not in kw_done) or rng.random() < 0.3:
+            x.append("k")
+            if x[0] == "o":
+                kw_done.add((x[1], x[2]))
     n = rng.choice([24, 28, 32]) if fam in ("fc", "st") else rng.choice([16, 20])
-    c = {"kind": "seq", "est": key, "cont": cont, "seed": rng.randrange(1, 10 ** 6), "n": n, "calls": calls}
+    c = {"kind": "seq", "est": key, "cont": cont, "seed": rng.randrange(1, 10 ** 6), "n": n, "calls": calls,
+         "fitkw": bool((variant + rng.randrange(2)) % 2)}
     if fam == "fc":
         c["fitfh"] = fitfh
     if has_random_state(key):
